@@ -26,8 +26,10 @@ def state_space_matrices(network: Network, c_values: dict[str, float] = {}, l_va
             Q[i][i] = 1
         Q = np.vstack((np.hstack( (Qi, np.zeros((Qi.shape[0], Q.shape[1]) ))),
                     np.hstack( (np.zeros((Q.shape[0], Qi.shape[1])), Q) )))
-        QS = Q[:,[source_mapping_all[l] for l in source_mapping_all if l not in l_values]]
-        QL = Q[:,[source_mapping_all[l] for l in source_mapping_all if l in l_values]]
+        current_source_mapping_all = current_source_mapper(network)
+        n_cs = current_source_mapping_all.N
+        QS = Q[:,[current_source_mapping_all[l] for l in current_source_mapping_all] + [n_cs+voltage_source_mapping_all[l] for l in voltage_source_mapping_all if l not in values]]
+        QL = Q[:,[n_cs+voltage_source_mapping_all[l] for l in values]]
         return QS, QL
     def value_matrix(c_values: dict[str, float], l_values: dict[str, float]) -> np.ndarray:
         return np.vstack((
